@@ -76,4 +76,30 @@ inductive WStep
   | other
   deriving Repr
 
+/-- what is observable after an operation of a C10 case: the field schema
+    (`MeasurementFieldSet`) and everything a read returns (`none`: the read failed) -/
+structure Seen where
+  sch : Schema
+  store : Option Store
+  deriving Repr
+
+/-- how the shard was restarted -/
+inductive Restart
+  | clean            -- Close, then Open
+  | kill             -- process kill: every completed write(2) is in the files
+  | torn             -- crash during the last append to fields.idxl: a prefix of that record is in the file
+  | inSnapshot (point : String)  -- crash inside the fields.idx rewrite of a clean close
+  deriving DecidableEq, Repr
+
+/-- One operation of a C10 case together with what was observed for it. -/
+inductive Step10
+  | write (batch : List Point) (res : WriteRes) (after : Seen)
+  /-- `Shard.DeleteMeasurement m`; `ok` = it returned without error -/
+  | drop (m : String) (ok : Bool) (after : Seen)
+  /-- restart; `opened` = the shard opened again -/
+  | restart (kind : Restart) (opened : Bool) (after : Seen)
+  /-- schema dump / read / snapshot: operations that must not change anything -/
+  | look (after : Seen)
+  deriving Repr
+
 end Influx.Fields
